@@ -77,7 +77,42 @@ def gen(rng, tier):
                 cutsets.append(jsongen.partitions(rng, n, rng.choice([3, 4])))
         for cuts in cutsets:
             out.append(mk(depth, fl, t, cuts, kind))
+    # streams of concatenated documents, resumed at the reported end position, whole vs chunked
+    nst = 250 if tier == "quick" else 6000
+    for i in range(nst):
+        docs = []
+        for _ in range(rng.choice([1, 2, 2, 3, 4])):
+            s_, t_ = jsongen.gen_doc(rng, depth=rng.choice([0, 1, 2]), width=3)
+            docs.append(t_)
+        sep = rng.choice([b"", b" ", b"\n", b" ", b"\t\n"])
+        t = sep.join(docs)
+        r = rng.random()
+        if r < 0.25:
+            t = jsongen.mutate_bytes(rng, t)
+        elif r < 0.35:
+            t = t + rng.choice([b"x", b"]", b" tru", b'"ab'])
+        t = t[:300]
+        if b"\x00" in t or len(t) < 2:
+            continue
+        fl = rng.choice([0, 0, 0, UTF8, STRICT | TRAILING, TRAILING])
+        cuts = jsongen.partitions(rng, len(t), rng.choice([2, 2, 3, 5, min(len(t), 12)]))
+        ops = ["S" + hx(t) + "".join(",%d" % c for c in cuts), "N", "S" + hx(t)]
+        out.append((line(32, fl, ops), {"kind": "stream", "text": t, "cuts": cuts, "nparts": 0, "flags": fl, "stream": True}))
     return out
+
+
+def stream_view(step):
+    """('docs=a@3;b@9; final=continue',) -> ([a, b], final)"""
+    s = step[0]
+    if not s.startswith("docs="):
+        return None
+    body, fin = s[5:].rsplit(" final=", 1)
+    vals = [] if body == "-" else [d.rsplit("@", 1)[0] for d in body.split(";") if d]
+    # whether trailing whitespace is eaten by the call that completed a document or answered
+    # with "continue" by the next call depends on where the chunk ends: both mean "no error"
+    if fin in ("success", "continue", "none"):
+        fin = "ok"
+    return vals, fin
 
 
 def outcome_of_chunks(steps, parts):
@@ -100,6 +135,19 @@ def oracle(line_, meta, impl):
     if "VALUE-WITH-ERROR" in impl:
         return ("value-with-error", impl[:100])
     steps = parse_obs(impl)
+    if meta.get("stream"):
+        if len(steps) != 3:
+            return ("malformed", "unexpected driver output: " + impl[:100])
+        a, b = stream_view(steps[0]), stream_view(steps[2])
+        if a is None or b is None:
+            return ("malformed", "unexpected driver output: " + impl[:100])
+        # with VALIDATE_UTF8 a chunk ending inside a multi-byte character is answered with a UTF-8 error, not
+        # with "continue": the premise of the property fails there
+        if (meta["flags"] & UTF8) and a[1].startswith("utf8") and any(0 < c < len(meta["text"]) and (meta["text"][c] & 0xC0) == 0x80 for c in meta["cuts"]):
+            return None
+        if a != b:
+            return ("stream-differs", "stream %r cuts %r flags %d: chunked gives %r, whole gives %r" % (meta["text"][:60], meta["cuts"], meta["flags"], a, b))
+        return None
     n = meta["nparts"]
     parts = chunk_ops(meta["text"], meta["cuts"])
     if len(steps) != 3 * n:
@@ -124,6 +172,8 @@ def classify(line_, meta, mo, co):
 
 
 def nontrivial(line_, meta, impl):
+    if meta.get("stream"):
+        return (meta["text"], tuple(meta["cuts"]), meta["flags"]) if ";" in impl.split(" | ")[0] else None
     if impl.startswith("continue"):
         return (meta["text"], tuple(meta["cuts"]), meta["flags"])
     return None
